@@ -102,19 +102,23 @@ def tmr_inst(name, P, K, isr, ops=None, tmax=7, weight=1):
     defs = {'P': P, 'K': K, 'ISR': isr, 'TMAX': tmax, 'CO_VERIF_TMR_POOL_HOOK': None}
     if isr:
         defs['ENV_PREEMPT'] = None
-    if isr == 2:
+    if isr >= 2:
         defs['NPRE'] = 10
+    if isr == 3:
+        defs['ONESHOT'] = None
     if ops is not None:
         defs['OPSEQ'] = '{' + ','.join(str(o) for o in ops) + '}'
-    return Inst(name, 'tmr_bmc.c', defs, unwind=max({0: 0, 1: 26, 2: 12}[isr], K + 2, tmax + 3, 10),
+    return Inst(name, 'tmr_bmc.c', defs, unwind=max({0: 0, 1: 26, 2: 12, 3: 12}[isr], K + 2, tmax + 3, 10),
                 unwindset=dict({'COTmrDelete': b, 'COTmrProcess': b if isr < 2 else b + 1, 'COTmrInsert': b, 'COTmrRemove': b + 1, 'COTmrReset': P + 1,
                                 'check_pools': P + 2, 'CoVerifTmrPool': P + 1}, **({'check_due': max(P + 2, K + 1)} if isr == 0 else {})),
                 types=[], fp_override={'COTmrProcess.function_pointer_call.1': ['cb']}, weight=weight, objbits=9,
-                harness_only=['P', 'K', 'ISR', 'TMAX', 'OPSEQ', 'NPRE'], family='tmr_bmc',
+                solver=([] if isr == 3 else None),      # MiniSat decides this family in 80 s, CaDiCaL not within 280 s (measured)
+                harness_only=['P', 'K', 'ISR', 'TMAX', 'OPSEQ', 'NPRE', 'ONESHOT'], family='tmr_bmc',
                 bounds='timer pool %d (separate blocks), operation kinds %s, arguments symbolic, times 0..%d ticks%s' % (
                     P, ''.join('CDTP'[o] for o in ops) if ops else '%d symbolic' % K, tmax,
                     {0: '', 1: ', tick service may preempt before every lock / after every unlock of create/delete; process deferred arbitrarily',
-                     2: ', tick service may preempt at every lock/unlock incl. inside process (weak oracle)'}[isr]))
+                     2: ', tick service may preempt at every lock/unlock incl. inside process (weak oracle)',
+                     3: ', one-shot actions, tick service preempts only inside process, at any of its lock/unlock points (weak oracle)'}[isr]))
 
 
 def op_seqs(K, first=(0,)):
@@ -153,6 +157,9 @@ def c08(tier):
         cfg = [(1, 2, 4, 7), (2, 1, 3, 2)]
     else:
         cfg = [(1, 2, 5, 7), (1, 3, 4, 7), (2, 1, 4, 2), (2, 2, 3, 2)]
+    # preemption inside process with TWO events (one elapsed, one falling due inside the process call)
+    for ops in (((0, 0, 2, 3),) if tier == 'quick' else ((0, 0, 2, 3), (0, 0, 3), (0, 0, 2, 3, 3), (0, 0, 2, 3, 1), (0, 2, 0, 3), (0, 0, 2, 2, 3))):
+        out.append(tmr_inst('tmr_isr3_p2_%s' % ''.join('CDTP'[o] for o in ops), 2, len(ops), 3, ops, tmax=2, weight=5))
     for isr, P, K, tmax in cfg:
         for ops in op_seqs(K):
             if isr == 2 and 3 not in ops:
